@@ -169,7 +169,7 @@ def judge(res, crate, obs):
 def run(tier, seed, replay=None):
     res = Result("C02", tier, seed, RULE)
     rng = rng_for(seed, "C02")
-    n_crates = 4 if tier == "quick" else 24
+    n_crates = 4 if tier == "quick" else 48
     cfg = c01.e2e_cfg(p_sub=0.35, max_depth=3, n_keys=(14, 22), namespaces=0.4, p_fk=0.15, p_lit_other=0.15)
     projs = [projects.gen_valid_project(rng, cfg) for _ in range(n_crates)]
     ptable = workload.plural_table_for(projs)
